@@ -326,6 +326,32 @@ func runRepo(impl, opsS string) (result string) {
 			} else {
 				out = append(out, readSnaps(c))
 			}
+		case "S":
+			// a bound with a time of day (as cmd/indicator-sync computes it): the snapshot of that day's midnight lies before it
+			day, _ := strconv.Atoi(f[2])
+			c, err := repo.GetSince(f[1], dayToTime(day).Add(13*time.Hour+7*time.Minute))
+			if err != nil {
+				out = append(out, "err")
+			} else {
+				out = append(out, readSnaps(c))
+			}
+		case "L":
+			// the asset's file becomes a symbolic link to a file kept elsewhere (a shared data directory): still the same asset
+			if impl == "fs" || impl == "fsw" {
+				path := filepath.Join(repoDir, f[1]+".csv")
+				if fi, err := os.Lstat(path); err == nil && fi.Mode().IsRegular() {
+					linkDir := repoDir + "_links"
+					os.MkdirAll(linkDir, 0o755)
+					defer os.RemoveAll(linkDir)
+					target := filepath.Join(linkDir, fmt.Sprintf("%s_%d.csv", f[1], len(out)))
+					if err := os.Rename(path, target); err == nil {
+						if err := os.Symlink(target, path); err != nil {
+							os.Rename(target, path)
+						}
+					}
+				}
+			}
+			out = append(out, "ok")
 		case "l":
 			t, err := repo.LastDate(f[1])
 			if err != nil {
@@ -1333,7 +1359,13 @@ func dumpRepo(r asset.Repository, names []string) string {
 // SYNC workers defaultDay assets failSrc failTgt impl runs sourceSpec targetSpec
 func runSync(args []string) string {
 	workers, _ := strconv.Atoi(args[0])
-	defDay, _ := strconv.Atoi(args[1])
+	// "17h": the default start date has a time of day (as cmd/indicator-sync computes it from time.Now()); the snapshot dated
+	// at that day's midnight lies before it
+	defDay, _ := strconv.Atoi(strings.TrimSuffix(args[1], "h"))
+	defTod := time.Duration(0)
+	if strings.HasSuffix(args[1], "h") {
+		defTod = 13*time.Hour + 7*time.Minute
+	}
 	dateEpoch = epoch2000
 	if args[5] == "memtz" {
 		if loc, err := time.LoadLocation("America/New_York"); err == nil {
@@ -1389,7 +1421,7 @@ func runSync(args []string) string {
 				// later runs: no injected faults (idempotence of a clean re-run)
 				fs.failGet, ft.failAppend = nil, nil
 			}
-			if err := s.Run(fs, ft, dayToTime(defDay)); err != nil {
+			if err := s.Run(fs, ft, dayToTime(defDay).Add(defTod)); err != nil {
 				errs = append(errs, "t")
 			} else {
 				errs = append(errs, "f")
